@@ -33,4 +33,27 @@ theorem always_returns (c : Cfg) (ts : List Tid) (s : St) (hT : 0 < c.T) (hQ : 0
     (hrun : runSched c init ts = some s) (hmax : ∀ t, step c s t = none) : s.mn = .returned :=
   SeqIo.Par.always_returns c ts s hT hQ hrun hmax
 
+/-- The hypothesis `0 < c.Q` of `no_deadlock` / `always_returns` cannot be dropped – and the code agrees (finding D17):
+with queue length 0, a reader that starts and a consumer that asks for a result, two steps lead to a state in which the
+call has not returned and no thread can move.  The main thread's fill loop runs zero times, so the reader never gets a
+data set to fill; the consumer waits for a result that cannot come.  (`parallel_fasta(rdr, 2, 0, ..)` on two records
+does not come back; the check replays this on every run and lists it as a known finding.) -/
+theorem queue_len_zero_deadlocks (c : Cfg) (hQ : c.Q = 0) (hri : c.readerInitFails = false)
+    (hds : c.dsInitFailAt = none) (hstop : c.stopAfter ≠ some 0) :
+    ∃ ts s, runSched c init ts = some s ∧ s.mn ≠ .returned ∧ ∀ t, step c s t = none := by
+  refine ⟨[.main, .reader], { (init : St) with dsCalls := 1, cur := some 0, mn := .recvDone, rd := .recvEmpty }, ?_, ?_, ?_⟩
+  · simp [runSched, step, init, hQ, hri, hds, afterResult, hstop]
+  · simp
+  · intro t
+    cases t <;> simp [step, init, doneSenders, readerAlive] <;> decide
+
+/-- two workers, queue length 0, two batches, a consumer that drains -/
+def plainQueueZero : Cfg :=
+  { T := 2, Q := 0, N := 2, endErr := false, readerInitFails := false, dsInitFailAt := none, stopAfter := none }
+
+/-- the premises of `queue_len_zero_deadlocks` are met by a plain configuration -/
+example : ∃ ts s, runSched plainQueueZero init ts = some s ∧ s.mn ≠ .returned ∧
+    ∀ t, step plainQueueZero s t = none :=
+  queue_len_zero_deadlocks plainQueueZero rfl rfl rfl (by simp [plainQueueZero])
+
 end SeqIo.Thm.C08
